@@ -14,7 +14,8 @@ import (
 //	mp4   0/1 AdvertiseIPv4MultiProtocol, optionally followed by 0/1 IPv4.NextHopExtended
 //	role  config role 0..5 (0 off, 1 provider, 2 RS, 3 RS-client, 4 customer, 5 peer), strict 0/1
 //	rr    0/1 route reflector client, cluster id
-//	imp   import policy: A accept all, D reject all, R rewrite (set local-pref 200) and accept
+//	imp   import policy: A accept all, D reject all, R rewrite (set local-pref 200) and accept, N none configured
+//	      (= the default, reject all); optionally followed by the export policy (same letters, default A)
 //	init  i (outgoing FSM, starts Idle) | a (FSM created for an accepted connection, starts Active)
 type SessCfg struct {
 	LAS, PAS, RID          uint32
@@ -28,6 +29,7 @@ type SessCfg struct {
 	RR                     bool
 	Cluster                uint32
 	Imp                    byte
+	Exp                    byte // export policy: A accept all (default), D reject all, R rewrite, N none configured
 	Init                   byte
 }
 
@@ -46,8 +48,15 @@ func (c SessCfg) String() string {
 	if c.V6 {
 		f += "6"
 	}
-	return fmt.Sprintf("s%d/%d/%d/%d/%s/%s%s%s%s/%s/%d%s/%s.%d/%c/%c", c.LAS, c.PAS, c.RID, c.Hold, f,
-		b01(c.APR4), b01(c.APS4), b01(c.APR6), b01(c.APS6), b01(c.MP4)+b01(c.NX4), c.Role, b01(c.Strict), b01(c.RR), c.Cluster, c.Imp, c.Init)
+	return fmt.Sprintf("s%d/%d/%d/%d/%s/%s%s%s%s/%s/%d%s/%s.%d/%s/%c", c.LAS, c.PAS, c.RID, c.Hold, f,
+		b01(c.APR4), b01(c.APS4), b01(c.APR6), b01(c.APS6), b01(c.MP4)+b01(c.NX4), c.Role, b01(c.Strict), b01(c.RR), c.Cluster, string(c.Imp)+string(c.expOrA()), c.Init)
+}
+
+func (c SessCfg) expOrA() byte {
+	if c.Exp == 0 {
+		return 'A'
+	}
+	return c.Exp
 }
 
 func ParseSessCfg(t string) (SessCfg, error) {
@@ -89,7 +98,7 @@ func ParseSessCfg(t string) (SessCfg, error) {
 	default:
 		return c, bad
 	}
-	if len(p[5]) != 4 || len(p[6]) < 1 || len(p[6]) > 2 || len(p[7]) != 2 || len(p[9]) != 1 || len(p[10]) != 1 {
+	if len(p[5]) != 4 || len(p[6]) < 1 || len(p[6]) > 2 || len(p[7]) != 2 || len(p[9]) < 1 || len(p[9]) > 2 || len(p[10]) != 1 {
 		return c, bad
 	}
 	c.APR4, c.APS4, c.APR6, c.APS6 = p[5][0] == '1', p[5][1] == '1', p[5][2] == '1', p[5][3] == '1'
@@ -109,8 +118,15 @@ func ParseSessCfg(t string) (SessCfg, error) {
 		return c, bad
 	}
 	c.Imp = p[9][0]
-	if c.Imp != 'A' && c.Imp != 'D' && c.Imp != 'R' {
+	if !strings.ContainsRune("ADRN", rune(c.Imp)) {
 		return c, bad
+	}
+	c.Exp = 'A'
+	if len(p[9]) == 2 {
+		c.Exp = p[9][1]
+		if !strings.ContainsRune("ADRN", rune(c.Exp)) {
+			return c, bad
+		}
 	}
 	c.Init = p[10][0]
 	if c.Init != 'i' && c.Init != 'a' {
@@ -125,6 +141,7 @@ func ParseSessCfg(t string) (SessCfg, error) {
 //	O,<ver>,<asn16>,<hold>,<id>,<caps>   OPEN (caps: '-' or '+'-joined a<asn4> m<afi>.<safi> p<afi>.<safi>.<sr> r<role> u<code>)
 //	U,<ann>,<wd>                   UPDATE announcing / withdrawing route ids ('-' or '.'-joined), encoded as the speaker expects
 //	P,<rid>,<a|c>,<v>              UPDATE announcing route rid with v in its AS_PATH (a) or CLUSTER_LIST (c)
+//	A,<rid>,<variant>              UPDATE announcing route rid with an extra optional attribute (see ExtraAttr)
 //	N,<code>,<sub>                 NOTIFICATION
 //	H,<marker 0|1>,<len>,<type>,<avail>  raw header + avail zero bytes, then the peer stops sending
 //	T,<n>                          only n (< 19) bytes of a header, then the peer stops sending
@@ -179,6 +196,8 @@ func (m Msg) String() string {
 		return fmt.Sprintf("O,%d,%d,%d,%d,%s", m.Ver, m.ASN16, m.Hold, m.ID, capsString(m.Caps))
 	case 'U':
 		return fmt.Sprintf("U,%s,%s", idsString(m.Ann), idsString(m.Wd))
+	case 'A':
+		return fmt.Sprintf("A,%d,%s", m.RID, m.Variant)
 	case 'P':
 		k := "c"
 		if m.ByASN {
@@ -244,6 +263,15 @@ func ParseMsg(s string) (Msg, error) {
 		if m.Wd, err = parseIDs(p[2]); err != nil {
 			return m, err
 		}
+	case 'A':
+		if len(p) != 3 {
+			return m, bad
+		}
+		v, ok := ints(p[1:2])
+		if !ok || v[0] > 255 || ExtraAttr(p[2]) == nil {
+			return m, bad
+		}
+		m.RID, m.Variant = v[0], p[2]
 	case 'P':
 		if len(p) != 4 || (p[2] != "a" && p[2] != "c") {
 			return m, bad
@@ -304,6 +332,7 @@ func ParseMsg(s string) (Msg, error) {
 //	hp0/hp1  the 1-second hold poll fires; 1 = the hold time has run out
 //	ka       keepalive timer fires          cr  connect-retry timer fires
 //	brk      writes on the session's connection start to fail
+//	ri<A|D|R> / re<A|D|R>  the import / export policy of the running session is replaced
 //	m:<msg>  the peer transmits <msg>
 type Event struct {
 	Sid  int
@@ -321,6 +350,8 @@ func (e Event) String() string {
 		return p + "hp" + strconv.Itoa(e.Code)
 	case "m":
 		return p + "m:" + e.M.String()
+	case "ri", "re":
+		return p + e.Kind + string(rune(e.Code))
 	}
 	return p + e.Kind
 }
@@ -338,6 +369,8 @@ func ParseEvent(t string) (Event, error) {
 	e := Event{Sid: sid}
 	r := t[i+1:]
 	switch {
+	case len(r) == 3 && (r[:2] == "ri" || r[:2] == "re") && strings.ContainsRune("ADR", rune(r[2])):
+		e.Kind, e.Code = r[:2], int(r[2])
 	case r == "up" || r == "upx" || r == "ka" || r == "cr" || r == "brk":
 		e.Kind = r
 	case r == "hp0" || r == "hp1":
